@@ -73,6 +73,15 @@ class _DuckAln:
         self.is_duplicate = bool(flag & 1024)
         self.is_supplementary = bool(flag & 2048)
         self.reference_end = start + sum(l for op, l in cigar if op in (0, 2, 3, 7, 8))
+        # the part of the read that is aligned (pysam: query_alignment_*): without the soft-clipped ends
+        ops = [(op, l) for op, l in cigar if op != 5]
+        lead = ops[0][1] if ops and ops[0][0] == 4 else 0
+        trail = ops[-1][1] if len(ops) > 1 and ops[-1][0] == 4 else 0
+        self.query_alignment_start = lead
+        self.query_alignment_end = len(seq) - trail
+        self.query_alignment_sequence = seq[lead : len(seq) - trail]
+        self.query_alignment_qualities = None if quals is None else quals[lead : len(quals) - trail]
+        self.query_length = len(seq)
 
     def has_tag(self, tag):
         return False
